@@ -20,6 +20,7 @@ import traceback
 
 HERE = os.path.dirname(os.path.abspath(__file__))
 ROOT = os.path.dirname(HERE)
+OUT = os.environ.get("VERIF_OUT") or ROOT      # where evidence/ and replays/ are written (default: /verif)
 sys.path.insert(0, HERE)
 
 import compare  # noqa: E402
@@ -81,13 +82,13 @@ def find_mismatches(pc, programs, impl_res, model_res):
 
 
 def write_replay(prop, prog, mm, seed, tier, note):
-    os.makedirs(os.path.join(ROOT, "replays"), exist_ok=True)
+    os.makedirs(os.path.join(OUT, "replays"), exist_ok=True)
     body = dict(property=prop, domain=prog["domain"], lines=prog["lines"], statement=mm["si"],
                 expected_from_proved_model=compare.show(mm["model"]), observed_on_implementation=compare.show(mm["impl"]),
                 seed=seed, tier=tier, note=note, tags=prog.get("tags", {}))
     h = hashlib.sha1(json.dumps(body, sort_keys=True, default=str).encode()).hexdigest()[:12]
     path = os.path.join("replays", f"{prop}-{h}.json")
-    with open(os.path.join(ROOT, path), "w") as fh:
+    with open(os.path.join(OUT, path), "w") as fh:
         json.dump(body, fh, indent=1, default=str)
     return path
 
@@ -134,7 +135,7 @@ def main():
     pc = props.PROPS[prop]
     rng = random.Random(f"{prop}-{tier}-{seed}")
 
-    rdir = os.path.join(ROOT, "replays")
+    rdir = os.path.join(OUT, "replays")
     if os.path.isdir(rdir):
         for fn in os.listdir(rdir):
             if fn.startswith(prop + "-"):
@@ -194,9 +195,9 @@ def main():
         body = dict(property=prop, broken_obligations=lean_broken,
                     note="a proof obligation / source tie no longer checks and the search over "
                          f"{len(programs)} programs found no input on which the implementation fails the property")
-        os.makedirs(os.path.join(ROOT, "replays"), exist_ok=True)
+        os.makedirs(os.path.join(OUT, "replays"), exist_ok=True)
         path = os.path.join("replays", f"{prop}-obligation.json")
-        json.dump(body, open(os.path.join(ROOT, path), "w"), indent=1)
+        json.dump(body, open(os.path.join(OUT, path), "w"), indent=1)
         violations.append((path, True))
 
     # 5. evidence -------------------------------------------------------------------------
@@ -254,8 +255,8 @@ def main():
         wall_s=round(time.time() - t0, 2),
         violations=len([v for v in violations if v[0]]),
     )
-    os.makedirs(os.path.join(ROOT, "evidence"), exist_ok=True)
-    with open(os.path.join(ROOT, "evidence", f"{prop}.json"), "w") as fh:
+    os.makedirs(os.path.join(OUT, "evidence"), exist_ok=True)
+    with open(os.path.join(OUT, "evidence", f"{prop}.json"), "w") as fh:
         json.dump(ev, fh, indent=1, default=str)
 
     for kf, n in sorted(known_hits.items()):
